@@ -18,7 +18,7 @@ def _get(results, ref):
 
 
 def equiv_check(prop, tier, seed, jobs, pairs, mcs=None, mc_generated=None, job_timeout=300, level="model_checking",
-                rule_text="", expect_ok=None, extra=None, presupplied=None):
+                rule_text="", expect_ok=None, extra=None, presupplied=None, merge=False):
     """jobs: list of job dicts (equiv.exec_job); pairs: list of dict(a=ref, b=ref, rule=..., cut=..., label=..., scenario=...)
     presupplied: dict jobIndex -> result (e.g. results computed in fresh subprocesses)"""
     t0 = time.time()
@@ -90,6 +90,21 @@ def equiv_check(prop, tier, seed, jobs, pairs, mcs=None, mc_generated=None, job_
            "pairs_skipped_documented_rejection": skipped[:20], "n_pairs_skipped": len(skipped)}
     if extra:
         cov.update(extra)
+    if merge:
+        import os
+        p = os.path.join(C.EVID, prop + ".json")
+        ev = json.load(open(p))
+        ev["coverage"]["states"] += cov["states"]
+        ev["coverage"]["transitions"] += cov["transitions"]
+        ev["coverage"]["traces_validated_against_impl"] += cov["traces_validated_against_impl"]
+        ev["coverage"]["evaluations"] += cov["evaluations"]
+        ev["coverage"]["distinct_nontrivial"] += cov["distinct_nontrivial"]
+        ev["coverage"]["equivalence"] = {k: cov[k] for k in ("pairs_judged", "rows_compared", "jobs_failed", "samples", "rule", "n_pairs_skipped")}
+        ev["coverage"]["model_instances"] = ev["coverage"].get("model_instances", []) + cov["model_instances"]
+        ev["violations"] = ev.get("violations", 0) + len(V.new)
+        ev["wall_s"] = round(ev.get("wall_s", 0) + time.time() - t0, 2)
+        json.dump(ev, open(p, "w"), indent=1)
+        return rc
     C.write_evidence(prop, tier, seed, level, cov, time.time() - t0, len(V.new),
                      assumptions=["TLC 1.8 / CommunityModules Json", "row digests = blake2b over IEEE bit patterns with canonical NaN",
                                   "two-run property: TLC judges the recorded pairs, it does not prove equivalence for unobserved inputs"])
